@@ -128,7 +128,7 @@ def rand_mask(rng, n, pattern=None):
 
 
 def rand_vlen(rng, n, dt=None, rank=None) -> dict:
-    dt = dt or rng.choice([d for d in PROP_DTYPES if d not in ("str", "float16")])
+    dt = dt or rng.choice([d for d in PROP_DTYPES if d != "str"])  # float16 elements are upcast to float32 like fixed arrays
     rank = rng.choice([0, 1, 1, 2, 2, 3]) if rank is None else rank
     els = []
     for _ in range(n):
